@@ -183,9 +183,9 @@ func c04MakeSingle(r *Rand, kw c04Keyword, kwCase, shape, monthIdx, monthCase in
 	return c04Single{toks, mean, name}
 }
 
-// c04Join writes tokens with 1..4 spaces between them and 0..3 around (CleanSpace's two passes
-// reduce a run of up to four spaces to one); wide = also runs of 5..9, which the code does not
-// reduce (known finding c04-space-run).
+// c04Join writes tokens with 1..4 spaces between them and 0..4 around; wide = also runs of 5..40
+// (before the CleanSpace repair a run of five or more was left at two or three and the sentence
+// became invalid).
 func c04Join(r *Rand, toks []string, extra, wide bool) string {
 	var b strings.Builder
 	gap := func(min int) {
@@ -194,7 +194,7 @@ func c04Join(r *Rand, toks []string, extra, wide bool) string {
 			n = min + r.Intn(4-min+1)
 		}
 		if wide && r.Chance(1, 4) {
-			n = 5 + r.Intn(5)
+			n = 5 + r.Intn(36)
 		}
 		b.WriteString(strings.Repeat(" ", n))
 	}
@@ -262,7 +262,6 @@ func c04CheckMeaning(c *Ctx, s string, start, end c04Meaning, isRange bool, sig 
 	in := map[string]string{"sentence": s}
 	key := ""
 	if c04HasSpaceRun(s) {
-		key = "c04-space-run"
 		c.Count("space-run>=5")
 	}
 	want := fmt.Sprintf("start %s end %s valid", start, end)
@@ -278,15 +277,14 @@ func c04CheckMeaning(c *Ctx, s string, start, end c04Meaning, isRange bool, sig 
 	if start != end {
 		canon = "Bet. " + start.canon() + " and " + end.canon()
 	}
-	key = ""
 	sd, ed := start.date(), end.date()
 	if isRange && !sd.Is(ed) && sd.Equals(ed) {
-		// DateRange.String decides with the constraint-aware Equals and prints one end only
-		key = "c04-range-prints-one-end"
+		// ends that are constraint-Equal but not the same date: the case DateRange.String got wrong
+		// before 8fec828 (it printed the start only); counted so the evidence shows it is exercised
 		c.Count("range-ends-constraint-equal")
 	}
 	if o.str != canon {
-		c.Oracle(key, "DateRange.String of a valid date is not the canonical spelling", in, o.str, canon)
+		c.Oracle("", "DateRange.String of a valid date is not the canonical spelling", in, o.str, canon)
 	}
 	if o.node != canon {
 		c.Oracle("", "DateNode.String of a valid date is not the canonical spelling", in, o.node, canon)
@@ -295,11 +293,7 @@ func c04CheckMeaning(c *Ctx, s string, start, end c04Meaning, isRange bool, sig 
 		back := gedcom.NewDateRangeWithString(printed)
 		bs, be := c04MeaningOf(back.StartDate()), c04MeaningOf(back.EndDate())
 		if bs != start || be != end || !back.IsValid() {
-			k := ""
-			if printed == o.str {
-				k = key
-			}
-			c.Oracle(k, "parsing the printed spelling does not give back the same start and end dates",
+			c.Oracle("", "parsing the printed spelling does not give back the same start and end dates",
 				map[string]string{"sentence": s, "printed": printed},
 				fmt.Sprintf("start %s end %s", bs, be), fmt.Sprintf("start %s end %s", start, end))
 		}
@@ -480,11 +474,20 @@ func init() {
 
 		// 0. the witnesses pinned by the Lean counterexample theorems, replayed on the implementation
 		c04CheckMeaning(c, "bet Aft. 1850 and 1900", c04Meaning{0, 0, 1850, gedcom.DateConstraintAfter},
-			c04Meaning{0, 0, 1900, gedcom.DateConstraintExact}, true, "witness/canonical_counterexample")
+			c04Meaning{0, 0, 1900, gedcom.DateConstraintExact}, true, "witness/canonical_old_rule_witness")
 		c04CheckMeaning(c, "abt     1900", c04Meaning{0, 0, 1900, gedcom.DateConstraintAbout},
-			c04Meaning{0, 0, 1900, gedcom.DateConstraintAbout}, false, "witness/spacing_counterexample")
+			c04Meaning{0, 0, 1900, gedcom.DateConstraintAbout}, false, "witness/space-run-5")
 		c04CheckMeaning(c, "abt    1900", c04Meaning{0, 0, 1900, gedcom.DateConstraintAbout},
 			c04Meaning{0, 0, 1900, gedcom.DateConstraintAbout}, false, "witness/spacing_ok")
+		// every run length 1..40, at every gap of a single date and of a range
+		for n := 1; n <= 40; n++ {
+			sp := strings.Repeat(" ", n)
+			c04CheckMeaning(c, "Bef."+sp+"3"+sp+"Sep"+sp+"1850", c04Meaning{3, 9, 1850, gedcom.DateConstraintBefore},
+				c04Meaning{3, 9, 1850, gedcom.DateConstraintBefore}, false, fmt.Sprintf("space-run/single/%d", n))
+			c04CheckMeaning(c, sp+"from"+sp+"Mar"+sp+"1850"+sp+"to"+sp+"abt"+sp+"1900"+sp,
+				c04Meaning{0, 3, 1850, gedcom.DateConstraintExact}, c04Meaning{0, 0, 1900, gedcom.DateConstraintAbout},
+				true, fmt.Sprintf("space-run/range/%d", n))
+		}
 
 		// 1. single dates: keyword x case x shape x month spelling (exhaustive), numerics sampled
 		for round := 0; round < rounds; round++ {
@@ -501,7 +504,7 @@ func init() {
 						for _, mi := range months {
 							sg := c04MakeSingle(r, kw, kc, shape, mi, (kc+mi+round)%4)
 							extra := round%3 == 1
-							wide := round%3 == 2 && r.Chance(1, 8)
+							wide := round%3 == 2 && r.Chance(1, 4)
 							s := c04Join(r, sg.tokens, extra || wide, wide)
 							c.Count("single/" + sg.shape)
 							c04CheckMeaning(c, s, sg.meaning, sg.meaning, false,
@@ -540,7 +543,7 @@ func init() {
 							toks := append([]string{c04Case(r, wc, bw)}, a.tokens...)
 							toks = append(toks, c04Case(r, (wc+round)%4, aw))
 							toks = append(toks, b.tokens...)
-							s := c04Join(r, toks, round%3 == 1, false)
+							s := c04Join(r, toks, round%3 == 1 || round%3 == 2, round%3 == 2 && r.Chance(1, 4))
 							c.Count("range")
 							c04CheckMeaning(c, s, a.meaning, b.meaning, true,
 								fmt.Sprintf("range/%s/%s/%d/%s/%s", bw, aw, wc, k1.word, kw2.word))
